@@ -18,6 +18,9 @@ Decides (static, on type-checked MIR of every autocomplete configuration):
                        --bpaf-complete-style-X strings select dump_X_completer.
  T8 line protocol      fish / elvish renderers (one candidate per line) cut a description at its first line break
                        (found and fixed for render_fish, 1f8621c).
+ T9 once             a renderer that answers a special case from a single element of `items` does not also run the general loop over
+                       `items` afterwards (each candidate once).
+ T7b compdef         the zsh stub starts with the `#compdef` tag (compinit reads only the first line).
 Does not decide: that sourcing the text in a real shell has no other effect."""
 import re
 from core import *
